@@ -39,6 +39,7 @@ type Case struct {
 	TsOff  int64  `json:"tsOff,omitempty"`  // timestamp patched in at run time = now + TsOff (entries that use time.Now() internally)
 	Patch  bool   `json:"patch,omitempty"`  // whether to patch the timestamp field
 	Router *RouterCase `json:"router,omitempty"`
+	Relay  *RelayCase  `json:"relay,omitempty"`
 	Note   string `json:"note,omitempty"`
 }
 
@@ -212,7 +213,7 @@ func evalCases(cases []Case, o *common.Options, rep *common.Report) error {
 		if j := strings.IndexByte(class, ' '); j > 0 && !strings.HasPrefix(class, "err ") {
 			class = class[:j]
 		}
-		rep.Case(c.Entry+"|"+c.Hex+"|"+fmt.Sprint(c.PS, c.PL, c.Now, c.Flag, c.Flag2, c.N, c.Chunks)+routerSig(c.Router), class != "panic")
+		rep.Case(c.Entry+"|"+c.Hex+"|"+fmt.Sprint(c.PS, c.PL, c.Now, c.Flag, c.Flag2, c.N, c.Chunks)+routerSig(c.Router)+relaySig(c.Relay), class != "panic")
 		rep.Count(c.Entry + ":" + class)
 		rep.Count(fmt.Sprintf("len<=%d", sizeBucket(len(c.Hex)/2)))
 		if i%997 == 0 {
@@ -234,6 +235,13 @@ func evalCases(cases []Case, o *common.Options, rep *common.Report) error {
 		}
 	}
 	return nil
+}
+
+func relaySig(rc *RelayCase) string {
+	if rc == nil {
+		return ""
+	}
+	return fmt.Sprintf("|%+v", *rc)
 }
 
 func sizeBucket(n int) int {
